@@ -527,14 +527,19 @@ theorem WF.open_facts {s : S} (h : WF s) (hf : s.fdOpen = true) (hw : s.writable
     | false => rfl
     | true => have := h.req_ok hs; rw [hw] at this; cases this
 
-theorem write2_wf (s : S) (bufs : List Nat) (send : Bool) (h : WF s) :
-    WF (write2 s bufs send).1 ∧ Frame s (write2 s bufs send).1 ∧ ClFrame s (write2 s bufs send).1 := by
+theorem write2_wf (s : S) (bufs : List Nat) (send : Bool) (nomem : Bool) (h : WF s) :
+    WF (write2 s bufs send nomem).1 ∧ Frame s (write2 s bufs send nomem).1 ∧
+    ClFrame s (write2 s bufs send nomem).1 := by
   unfold write2
   simp only []
   by_cases hchk : checkBeforeWrite { s with nextId := s.nextId + 1 } send < 0
   · simp only [hchk, if_true]
     exact ⟨h.bump, ⟨rfl, rfl, rfl, rfl, id⟩, fun hc => ⟨hc, rfl, rfl⟩⟩
   · simp only [hchk, if_false]
+    by_cases hnm : nomem = true ∧ bufs.length > BUFSML
+    · rw [if_pos hnm]
+      exact ⟨h.bump, ⟨rfl, rfl, rfl, rfl, id⟩, fun hc => ⟨hc, rfl, rfl⟩⟩
+    rw [if_neg hnm]
     obtain ⟨hf, hw⟩ := check_ok _ _ hchk
     have hf : s.fdOpen = true := hf
     have hw : s.writable = true := hw
@@ -781,7 +786,8 @@ theorem apiOp_wf (s : S) (o : Op) (h : WF s) :
         exact h2),
       closed_ok := hw.closed_ok }
   cases o with
-  | write bufs send => obtain ⟨a, b, c⟩ := write2_wf s bufs send h; exact key _ a b c
+  | write bufs send => obtain ⟨a, b, c⟩ := write2_wf s bufs send false h; exact key _ a b c
+  | writeNoMem bufs send => obtain ⟨a, b, c⟩ := write2_wf s bufs send true h; exact key _ a b c
   | tryWrite bufs send => obtain ⟨a, b, c⟩ := tryWrite2_wf s bufs send h; exact key _ a b c
   | shutdown => obtain ⟨a, b, c⟩ := shutdownOp_wf s h; exact key _ a b c
   | close => obtain ⟨a, b, c⟩ := closeOp_wf s h; exact key _ a b c
